@@ -288,7 +288,7 @@ def _job(arg):
                     nbad = sum(1 for i in range(max(len(v.got), len(v.want))) if v.got[i:i + 1] != v.want[i:i + 1])
                     what += ' (%d of %d output lines differ)' % (nbad, len(v.want))
                 else:
-                    what = '%s: %s' % (c.desc.strip(), v.detail)
+                    what = '%s: %s' % (c.desc.strip(), re.sub(r'0x[0-9a-f]+|==\d+==|/tmp/\S+', '..', v.detail))
                     if 'stops in this case' in v.detail:
                         key += '/crash-at-run-time'
             elif v.kind == 'cproc-fail':
@@ -444,6 +444,23 @@ def main(chk):
     distinct = set()
     ambiguous, samples = [], []
     done = 0
+    # all scratch directories of the workers live under one directory that is removed whatever happens
+    rundir = ilexec.workdir('c01run.')
+    old_tmp = os.environ.get('VERIF_TMP')
+    os.environ['VERIF_TMP'] = rundir
+    try:
+        done = _collect(chk, jobs, tot, distinct, ambiguous, samples, X86)
+    finally:
+        if old_tmp is None:
+            os.environ.pop('VERIF_TMP', None)
+        else:
+            os.environ['VERIF_TMP'] = old_tmp
+        shutil.rmtree(rundir, ignore_errors=True)
+    return _finish(chk, tot, distinct, ambiguous, samples, corpus, quick, s4cap)
+
+
+def _collect(chk, jobs, tot, distinct, ambiguous, samples, X86):
+    done = 0
     for r in fs.pimap(_dispatch, jobs):
         done += 1
         key = r['stratum'] + ('' if r['target'] == X86 else '@unsigned-char-targets')
@@ -471,6 +488,10 @@ def main(chk):
         if chk.expired():
             chk.notes.append('deadline reached after %d of %d jobs' % (done, len(jobs)))
             break
+    return done
+
+
+def _finish(chk, tot, distinct, ambiguous, samples, corpus, quick, s4cap):
     chk.strata = tot
     chk.log('ambiguous cases: %d' % len(ambiguous))
     for a in ambiguous[:6]:
